@@ -34,10 +34,11 @@ ANALYSIS_TIMEOUT_S = 0.5     # the fixed point of nested tuple types (x = (x, 1)
 
 TIERS = {
     # fam_full: exhaustive family sizes; fam_sample: (size, how many sampled); rnd: (count, statement budget)
-    'quick': dict(fam_full=(1, 2), fam_sample=((3, 1100),), clo=(3, 500), br=400, rnd=((600, 8), (350, 12)), max_trip=2,
-                  max_steps=60, max_dec=8),
-    'thorough': dict(fam_full=(1, 2, 3), fam_sample=((4, 12000),), clo=(3, 0), br=0, rnd=((16000, 8), (10000, 12), (4000, 16)),
-                     max_trip=2, max_steps=80, max_dec=10),
+    # clo / br / chn / par: how many sampled of the family (0 = all)
+    'quick': dict(fam_full=(1, 2), fam_sample=((3, 1100),), clo=(3, 500), br=400, chn=240, par=300,
+                  rnd=((600, 8), (350, 12)), max_trip=2, max_steps=60, max_dec=8),
+    'thorough': dict(fam_full=(1, 2, 3), fam_sample=((4, 12000),), clo=(3, 0), br=0, chn=0, par=0,
+                     rnd=((16000, 8), (10000, 12), (4000, 16)), max_trip=2, max_steps=80, max_dec=10),
 }
 
 
@@ -127,6 +128,10 @@ def programs(tier, seed):
     out += [('clo', tr) for tr in (rnd.sample(clo, t['clo'][1]) if 0 < t['clo'][1] < len(clo) else clo)]
     br = list(L.branch_family())
     out += [('br', tr) for tr in (rnd.sample(br, t['br']) if 0 < t['br'] < len(br) else br)]
+    rnd3 = random.Random(seed * 104729 + 5)          # (a stream of its own: the samples above stay what they were)
+    for fam, gen in (('chn', L.chain_family), ('par', L.param_family)):
+        allp = list(gen())
+        out += [(fam, tr) for tr in (rnd3.sample(allp, t[fam]) if 0 < t[fam] < len(allp) else allp)]
     for k, size in t['rnd']:
         base = rnd.randrange(1 << 30)
         out += [('rnd%d' % size, L.random_program(base + i, size)) for i in range(k)]
@@ -333,13 +338,19 @@ def signature(b, p):
     if b['unk']:
         return 'c19:stale-claim-after-operand-became-unknown'
     if b['wrel'] == 'store':
-        return 'c19:binding-claim-misses-type:%s:%s' % (okind, b['wk'])
+        # (a later target of a chained assignment: the specification knows what kind of target precedes it)
+        return 'c19:binding-claim-misses-type:%s:%s%s' % (okind, b['wk'], ':' + b['chain'] if b['chain'] else '')
     if b['clause'] == 'closure' and b['cshadow']:
         # this call contributed the caller's own variable of that name, or nothing at all
         return 'c19:closure-types-from-call-in-local-function-use-its-own-names'
     if b['clause'] == 'types' and b['clo']:
         # the final CLOSURE_TYPES know the type: the body was annotated before they were complete
         return 'c19:callee-annotated-before-closure-types-complete'
+    if b['wk'] == 'param' and not b['wc'] and b['ponly']:
+        # the only binding of the variable is the call and carries no claim: whatever is claimed for it (at a read,
+        # or as closure type for a function nested in its function) was not derived from a binding of this variable
+        return 'c19:type-claimed-for-untyped-never-rebound-parameter:%s%s' % (
+            'read' if b['clause'] == 'types' else 'closure', ':hides-enclosing-variable' if b['phide'] else '')
     cause = None
     if b['wnl'] and b['wrel'] == 'other':
         cause = 'nonlocal-rebinding-invisible-to-caller'
@@ -483,7 +494,9 @@ def witnesses(batch, small):
             occurrence=L.r_expr(p, o, False) if p['exprs'][o - 1]['kind'] not in ('store', 'stuple', 'param')
             else 'binding of ' + (b['name'] or 'tuple target'),
             occurrence_id=o, variable=b['name'], runtime_type=b['t'], claimed=claim,
-            last_binding=dict(kind=b['wk'], had_claim=b['wc'], via_nonlocal=b['wnl'], activation=b['wrel']),
+            last_binding=dict(kind=b['wk'], had_claim=b['wc'], via_nonlocal=b['wnl'], activation=b['wrel'],
+                              chained_target=b['chain'], parameter_never_rebound=b['ponly'],
+                              parameter_hides_enclosing_variable=b['phide']),
             operand_unknown=b['unk'], final_closure_types_cover_it=b['clo'],
             caller_shadows_or_declares_nonlocal=b['cshadow'])
     return res
@@ -502,6 +515,10 @@ WHAT = {
     'c19:closure-types-miss-captured-type': 'CLOSURE_TYPES of a local function do not cover the type of a captured variable at a call',
     'c19:callee-annotated-before-closure-types-complete': 'a captured variable read in a local function keeps the types known when the function body was analysed; a call from a sibling function analysed later adds to CLOSURE_TYPES but not to the body annotations',
     'c19:closure-types-from-call-in-local-function-use-its-own-names': 'closure types recorded at a call made inside another local function come from that function\'s own state: names it declares nonlocal are missing, locals that shadow a captured name are mixed in',
+    'c19:binding-claim-misses-type:store:assign:after-unpack': 'in a chained assignment a name target that follows a tuple target is given a type that is not the type of the assigned value',
+    'c19:binding-claim-misses-type:stuple:unpack:after-unpack': 'in a chained assignment a tuple target that follows another tuple target is given a type that is not the type of the assigned value',
+    'c19:type-claimed-for-untyped-never-rebound-parameter:closure:hides-enclosing-variable': 'the closure types passed to a function nested in a local function contain, for a parameter (type unknown, never rebound) that has the name of a variable of the enclosing function, the types of that other variable',
+    'c19:type-claimed-for-untyped-never-rebound-parameter:read:hides-enclosing-variable': 'a parameter of a local function (type unknown, never rebound) that has the name of a variable of the enclosing function is read with the types of that other variable',
     'c19:stale-claim-after-operand-became-unknown': 'a TYPES annotation written by an early visit of the fixed point stays on the node after a later visit finds an operand unknown',
 }
 
